@@ -209,13 +209,15 @@ pub struct PuCase {
 }
 
 fn pu_strategy(_t: Tier) -> BoxedStrategy<PuCase> {
-    (prop_oneof![7 => proptest::collection::vec(any::<bool>(), 1..=8), 1 => proptest::collection::vec(any::<bool>(), 9..=16)], any::<u16>(), prop_oneof![16 => 1usize..=6, 1 => 7usize..=64, 1 => 65usize..=3000], 0usize..=6, 0..LAYOUTS, prop_oneof![3 => Just(0usize), 2 => 1usize..=6])
+    (prop_oneof![7 => proptest::collection::vec(any::<bool>(), 1..=8), 1 => proptest::collection::vec(any::<bool>(), 9..=16), 1 => proptest::collection::vec(any::<bool>(), 17..=80), 1 => proptest::collection::vec(proptest::bool::weighted(0.7), 81..=300)], any::<u16>(), prop_oneof![16 => 1usize..=6, 1 => 7usize..=64, 1 => 65usize..=3000], 0usize..=6, 0..LAYOUTS, prop_oneof![3 => Just(0usize), 2 => 1usize..=6])
         .prop_map(|(mut pattern, k, block, extra, layout, warm_block)| {
             // at least one true, by construction
             if !pattern.iter().any(|&b| b) {
                 let i = idx(k, pattern.len());
                 pattern[i] = true;
             }
+            // long patterns with small blocks, so that a case stays cheap
+            let block = if pattern.len() > 16 { 1 + (block - 1) % 12 } else { block };
             PuCase { pattern, block, extra, layout, warm_block }
         })
         .boxed()
@@ -308,6 +310,7 @@ fn check_pu(c: &PuCase, p: &mut Probe) -> Check {
     }
     p.class_if(pat.len() >= 2, "lengths-below-pattern-length");
     p.class_if(t < pat.len(), "something-removed");
+    p.class_if(pat.len() > 20, "pattern-of-more-than-20-blocks");
     if t < pat.len() && pat.len() >= 2 {
         p.nontrivial();
     }
